@@ -116,6 +116,25 @@ fn run<T: Coords>(case: &Value) -> Option<Vec<(&'static str, Value)>> {
 }
 
 pub fn exec(case: &Value) -> Value {
+    if gs(case, "op") == "smooth" {
+        let t = gi(case, "kk") as f32 / 16.0;
+        let sc = |x: f32| ((x as f64) * SC).round() as i64;
+        let mut e = case.clone();
+        let o = e.as_object_mut().unwrap();
+        match guard(|| (re::math::spline::smoothstep(t), re::math::spline::smootherstep(t))) {
+            Some((a, b)) => {
+                o.insert("ss".into(), json!(sc(a)));
+                o.insert("sss".into(), json!(sc(b)));
+                o.insert("panic".into(), json!(0));
+            }
+            None => {
+                o.insert("ss".into(), json!(0));
+                o.insert("sss".into(), json!(0));
+                o.insert("panic".into(), json!(1));
+            }
+        }
+        return e;
+    }
     let r = match gs(case, "ty") {
         "vec2" => run::<Vec2>(case),
         "pt2" => run::<Point2>(case),
@@ -146,6 +165,12 @@ pub fn exec(case: &Value) -> Value {
 }
 
 pub fn gen(args: &Args, out: &mut dyn Write) {
+    if args.rest.first().map(|s| s.as_str()) == Some("extra") {
+        for kk in -8..=24 {
+            writeln!(out, "{}", json!({"k": format!("ss{kk}"), "op": "smooth", "ty": "f32", "kk": kk})).unwrap();
+        }
+        return;
+    }
     let thorough = args.tier == "thorough";
     let n = args.n.unwrap_or(if thorough { 60_000 } else { 6_000 });
     let mut rng = Rng::new(args.seed ^ 0x5B11E);
